@@ -31,6 +31,7 @@ func runC07(c *Ctx) {
 	c04R3As(c, c.R.Rule("R12", "K5/K2/K3 (= C04.R3) a failed DLQ hand-off blocks the fan-out cursor: multiAckNacker.released advances only after the parent Ack/Nack for that position succeeded, under m.mu, never past a non-terminal position", 30))
 	c01R2As(c, c.R.Rule("R13", "K3 (= C01.R2) the v1 DLQ write needs evidence of success: DLQDestination.Write returns nil only for exactly one ack whose position equals the written record's and that carries no error", 5))
 	c08R9As(c, c.R.Rule("R9", "K6 (= C08.R9) the error lands on the record that was rejected: with filtered records present, Batch.setFlagNoErr/setFlagWithErr address recordStatuses only through the active-index map, entry by entry", 4))
+	c07R15(c)
 	c08R15As(c, c.R.Rule("R14", "K3 (= C08.R15) a destination's rejection reaches the record it was issued for: nacking a piece of a split run never re-activates a filtered sibling, so the active indices of a later ack response still address the records that were written (a rejected record is dead-lettered, not acked)", 1))
 	c01R1As(c, c.R.Rule("R10", "K1 (= C01.R1) closed ack entry points: Worker.Ack (which also credits the DLQ window) is reached only from the tabled ack-forwarding functions — never from the nack path, which would count a dead-lettered record as a nack and an ack", 13))
 }
@@ -442,4 +443,50 @@ func c07R11(c *Ctx) {
 	}
 	ok, _ := kit.AllExitsFromEdge(kit.Edge{To: fn.Blocks[0]}, false, kit.ExitSpec{Gates: g})
 	c.R.Check(ok, r, "DLQHandlerNode.Ack: every acked message credits the window while the node runs", c.Pos(fn.Pos()), "ok", "an exit of DLQHandlerNode.Ack behind the running test skips window.Ack() (e.g. for filtered messages): older nacks are then never pushed out of the window and a rejection the window rule permits stops the pipeline — and the two engines no longer decide alike", true)
+}
+
+// c07R15: F67. Behind a v1 fan-out every destination acks its own clone; a clone's ack handler waits for the original
+// to be acked or nacked by whoever decides it. When a sibling destination nacked the message and the DLQ absorbed the
+// nack (window permits, record stored, source acked), the rejection was TOLERATED: the pipeline goes on. The handler
+// therefore answers with the outcome of that nack (Message.Nack is idempotent and returns the deciding call's result),
+// never with an error of its own — otherwise every tolerated rejection stops a multi-destination pipeline and the two
+// engines decide the same outcome sequence differently.
+func c07R15(c *Ctx) {
+	r := c.R.Rule("R15", "K3 v1 fan-out: a tolerated rejection does not stop the sibling destinations: in FanoutNode.Run the clone ack handler's return on the <-msg.Nacked() arm is the result of Message.Nack (the deciding nack's outcome), not a freshly constructed error", 1)
+	fn := c.SSA(r, pStream, "(*FanoutNode).Run")
+	nacked := c.Fn(r, pStream, "(*Message).Nacked")
+	nack := c.Fn(r, pStream, "(*Message).Nack")
+	if fn == nil || nacked == nil || nack == nil {
+		return
+	}
+	n := 0
+	for _, lit := range kit.WithAnon(fn) {
+		for _, sel := range kit.Selects(lit) {
+			for i, st := range sel.States {
+				if st.Dir != types.RecvOnly {
+					continue
+				}
+				cl, ok := st.Chan.(*ssa.Call)
+				if !ok || kit.CalleeOf(cl.Common()) != nacked {
+					continue
+				}
+				// returns behind this arm
+				for _, e := range kit.SelectArmEdges(sel, i) {
+					for _, ret := range kit.Returns(lit) {
+						if !(ret.Block() == e.To || e.To.Dominates(ret.Block())) || len(ret.Results) == 0 {
+							continue
+						}
+						if !types.Identical(ret.Results[len(ret.Results)-1].Type(), types.Universe.Lookup("error").Type()) {
+							continue
+						}
+						n++
+						v := kit.RetVal(ret, len(ret.Results)-1)
+						call, isCall := v.(*ssa.Call)
+						c.R.Check(isCall && kit.CalleeOf(call.Common()) == nack, r, "FanoutNode.Run: the clone's ack reports the outcome of the nack that decided the message", c.Pos(posOf(ret)), "msg.Nack(…) result", "the ack handler of a fan-out clone answers a sibling destination's nack with an error of its own ('message was nacked by another node'): the sibling's acker node fails and the pipeline is torn down although the DLQ window tolerated the rejection, stored the record and acked it to the source — with more than one destination the nack window is meaningless, and the arch-v2 engine keeps running for the same outcome sequence", true)
+					}
+				}
+			}
+		}
+	}
+	c.R.Check(n >= 1, r, "FanoutNode.Run: <-msg.Nacked() arm of the clone ack handler", c.Pos(fn.Pos()), "found", "the clone ack handler's Nacked arm was not found", true)
 }
